@@ -196,6 +196,9 @@ def decode(buf: BinaryStr, offset: int = 0) -> (list[memoryview], int):
         offset += size_typ_comp
         len_comp, size_len_comp = parse_tl_num(buf, offset)
         offset += size_len_comp + len_comp
+        if offset - st > length:
+            # The component runs over the end of the Name
+            raise IndexError('buffer overflow')
         ret.append(buf[st:offset])
         length -= (offset - st)
 
